@@ -28,8 +28,9 @@ def one(it):
     name, patch = it
     d = tempfile.mkdtemp(prefix='rf.', dir='/tmp')
     try:
-        subprocess.run(['git', '-C', '/repo', 'worktree', 'add', '-q', '--detach', f'{d}/r', 'HEAD'], check=True)
-        r = subprocess.run(['git', '-C', f'{d}/r', 'apply', patch], capture_output=True)
+        os.makedirs(f'{d}/r')
+        shutil.copytree('/repo/moPepGen', f'{d}/r/moPepGen', ignore=shutil.ignore_patterns('__pycache__'))
+        r = subprocess.run(['git', 'apply', '--include=moPepGen/*', patch], cwd=f'{d}/r', capture_output=True)
         if r.returncode:
             return name, {'error': 'patch does not apply: ' + r.stderr.decode()[:200]}
         out = {}
@@ -40,7 +41,6 @@ def one(it):
                 out[p] = {'exit': r.returncode, 'msgs': msgs[:8]}
         return name, out
     finally:
-        subprocess.run(['git', '-C', '/repo', 'worktree', 'remove', '--force', f'{d}/r'], capture_output=True)
         shutil.rmtree(d, ignore_errors=True)
 
 res = {}
